@@ -60,7 +60,7 @@ def main() -> None:
                 "serves_properties": [c["property_id"] for c in checks],
                 "kind_free_text": "repository-specific static analysis over the Python AST of /repo/src/ampform: "
                 "index + resolver/call graph, reaching-definition provenance, term extraction with polynomial/rational "
-                "normal forms, structured path walker, model of the @unevaluated expression classes",
+                "normal forms, structured path walker, model of the @unevaluated expression classes; load-time normal form of the AST; abstract interpretation of selected functions into structural / matrix terms and over model objects (kinds, never SymPy values; finite domains enumerated exhaustively; nothing of /repo is imported or executed); every rule is three-valued (holds / violated with positive evidence / cannot decide = exit 2)",
             }
         ],
         "checks": checks,
